@@ -224,6 +224,7 @@ def check_c15(tier, seed, log=print):
                              rule='Lexer::bump(n) on str and [u8] lexers at three positions, n over 0..len+2, usize::MAX-k, 2^63, 2^64-2 and wrap-around values, in debug and release builds with and without forbid_unsafe, under catch_unwind; '
                                   'afterwards span() is inspected and slice()/remainder() only when the span is valid; oracle = the property itself (succeeds iff new end representable, in range and on a boundary; span valid in every case); non-trivial = n > len',
                              samples=samples, configs=list(bins), model_vs_impl_disagreements=tie_dis))
+    run.coverage['copies_between_sources'] = copy_api_histories(run, tier, log)
     run.assumptions += ['the release/debug difference (overflow checks) is exercised on the real builds; the model treats usize as 64-bit naturals with explicit overflow tests']
     return run.finish()
 
@@ -298,7 +299,7 @@ def gen_history(R, src_len):
             ops += ['clone', str(i)]
             npool += 1
         elif r < 0.86:
-            ops += ['fresh', R.choice(['0', '1'])]
+            ops += ['fresh', R.choice(['0', '1']), R.choice(['0', '0', '1'])]
             npool += 1
         elif r < 0.92:
             ops += ['clonefrom', str(i), str(R.randrange(npool + 1))]
@@ -348,9 +349,22 @@ def check_c14(tier, seed, log=print):
         for p0 in (0, 1):
             for warm in (0, 1, 2, 3):
                 for (a, b) in ((0, 1), (1, 0)):
-                    ops = ['fresh', str(1 - p0)] + ['next', str(b)] * warm + ['clonefrom', str(a), str(b), 'next', str(a), 'next', str(b), 'snext', str(a), 'snext', str(b),
-                                                                            'clone', str(a), 'next', '2']
+                    ops = ['fresh', str(1 - p0), '0'] + ['next', str(b)] * warm + ['clonefrom', str(a), str(b), 'next', str(a), 'next', str(b), 'snext', str(a), 'snext', str(b),
+                                                                                 'clone', str(a), 'next', '2']
                     reqs.append('API %s %d %s' % (P.hexs(src.encode('utf-8')), p0, ' '.join(ops)))
+    # directed: two lexers over different sources (the second source is longer and its char boundaries lie elsewhere), one advanced by
+    # next / bump, then copied in place into the other, both directions; the copy must read the donor's source
+    for src in ['ab', 'ab 12', 'é', 'x']:
+        for warm in (1, 2, 3):
+            for adv in (['next'], ['bump', '2'], ['bump', '1'], ['next', 'bump', '1']):
+                for (a, b) in ((0, 1), (1, 0)):
+                    ops = ['fresh', '0', '1']
+                    for _ in range(warm):
+                        for o in adv:
+                            ops += ([o, str(b)] if o == 'next' else ['bump', str(b), o] if o.isdigit() else [])
+                    ops = ['fresh', '0', '1'] + sum(([x, str(b)] if x == 'next' else ['bump', str(b), adv[k + 1]] for k, x in enumerate(adv) if not x.isdigit()), []) * warm
+                    ops += ['clonefrom', str(a), str(b), 'next', str(a), 'bump', str(a), '1', 'snext', str(a), 'next', str(b), 'clone', str(a), 'next', '2']
+                    reqs.append('API %s 0 %s' % (P.hexs(src.encode('utf-8')), ' '.join(ops)))
     # small scope, exhaustively: after 0 or 2 warm-up calls, every sequence of three calls over a fixed menu (both handles of
     # the pool, in-range and out-of-range bumps), ordinary and partial lexer, followed by a read through both handles
     menu = [['next', '0'], ['snext', '0'], ['bump', '0', '1'], ['bump', '0', '2'], ['bump', '0', '99'], ['clone', '0'], ['morph', '0'], ['next', '1'], ['snext', '1'],
@@ -480,6 +494,69 @@ def partial_api_histories(run, tier, log=print):
                 run.violation('partial-api', dict(config=name, request=rq, observed=v, model=mv,
                                                   what='a partial lexer handled through morph / clone / spanned behaves differently from the model, in which the partial flag travels with the lexer (it commits an item the buffer does not determine, or stops waiting)'),
                               key='papi|' + rq)
+    return dict(evaluations=n, failures=bad)
+
+
+def copy_api_histories(run, tier, log=print):
+    """C15 through copies: a position validated by bump / next against one source must not end up in a lexer reading another
+    one.  Directed histories over two sources (the second longer, char boundaries elsewhere): advance one lexer, copy it into
+    the other with clone_from / clone, bump and lex on; after every call the span must lie inside the source the lexer itself
+    reports, on its char boundaries (BADSPAN / BADSLICE otherwise), and the history must equal the Lean pool model's."""
+    bins = build_libcheck([c for c in LIBCFG[tier] if c[0] in ('dbg', 'rel', 'rel_safe')])
+    enums = libcheck_enums()
+    caps = P.run_capture([enums['TokA'], enums['TokB']])
+    if any(c is None or c.verdict != 'ACCEPT' for c in caps):
+        run.violation('setup', dict(what='libcheck token types not accepted by the derive'), no_input=True)
+        return dict(evaluations=0)
+    reqs = []
+    for src in ['ab', 'ab 12', 'é', 'x', '', 'ab中']:
+        hx = P.hexs(src.encode('utf-8'))
+        for warm in (1, 2, 3):
+            for adv in (['next'], ['bump', '2'], ['bump', '1'], ['next', 'bump', '1'], ['bump', '3', 'next']):
+                for (a, b) in ((0, 1), (1, 0)):
+                    step = []
+                    k = 0
+                    while k < len(adv):
+                        if adv[k] == 'next':
+                            step += ['next', str(b)]
+                            k += 1
+                        else:
+                            step += ['bump', str(b), adv[k + 1]]
+                            k += 2
+                    for copy in (['clonefrom', str(a), str(b)], ['clone', str(b)]):
+                        tgt = str(a) if copy[0] == 'clonefrom' else '2'
+                        ops = ['fresh', '0', '1'] + step * warm + copy + ['bump', tgt, '1', 'next', tgt, 'snext', tgt, 'bump', tgt, '2', 'next', str(b)]
+                        for p0 in ('0', '1'):
+                            reqs.append('API %s %s %s' % (hx, p0, ' '.join(ops)))
+    lines = ['CASE A'] + caps[0].dump
+    for i, l in enumerate(caps[0].leaves):
+        if l[3] == 'Ws':
+            lines.append('CB %d 3' % i)
+    lines += ['CASE B'] + caps[1].dump
+    for rq in reqs:
+        t = rq.split(' ')
+        lines.append('Q API A B %s %s %s' % (t[1], t[2], ' '.join(t[3:])))
+    ans = P.run_lean(lines, nproc=0)
+    n = bad = 0
+    for name, (binp, err) in bins.items():
+        if binp is None:
+            run.violation('libcheck-build', dict(config=name, stderr=err), no_input=True)
+            continue
+        out, rc = run_lib(binp, reqs)
+        for rq in reqs:
+            t = rq.split(' ')
+            mv = ans.get('B API A B %s %s %s' % (t[1], t[2], ' '.join(t[3:])))
+            v = out.get(rq)
+            n += 1
+            if v is None or 'BADSPAN' in v or 'BADSLICE' in v or v == 'PANIC':
+                bad += 1
+                run.violation('copy-span', dict(config=name, request=rq, observed=v, model=mv,
+                                                what='after a copy (clone_from / clone) between lexers over different sources a lexer holds a span outside its own source or off its char boundaries: slice() / remainder() are not safe'),
+                              key='copyspan|' + rq)
+            elif mv is not None and v != mv:
+                bad += 1
+                run.violation('tie', dict(config=name, request=rq, observed=v, model=mv, correspondence='Lexer API (clone_from, clone, bump, next over two sources) vs LogosModel.Api'),
+                              no_input=True, key='copytie|' + rq)
     return dict(evaluations=n, failures=bad)
 
 
